@@ -237,10 +237,18 @@ pub fn run_thr(trace: &Trace) -> (RunReport, Vec<u8>) {
     let mut vid_written: BTreeMap<u32, (u16, u32)> = BTreeMap::new(); // vid -> (key, raw weight)
     let mut prologue_writes: Vec<(u16, u32, u32)> = Vec::new();
     for rec in &trace.prologue {
-        if let Op::Insert { k, vid, w } = &rec.op {
-            cache.insert(K::tracked(*k, &reg), V::new(*vid, *w, &reg));
-            vid_written.insert(*vid, (*k, *w));
-            prologue_writes.push((*k, *vid, *w));
+        match &rec.op {
+            Op::Insert { k, vid, w } => {
+                cache.insert(K::tracked(*k, &reg), V::new(*vid, *w, &reg));
+                vid_written.insert(*vid, (*k, *w));
+                prologue_writes.push((*k, *vid, *w));
+            }
+            // warm-up reads (popularity, recency) and maintenance placements
+            Op::Get { k } => {
+                let _ = cache.get(&K::probe(*k));
+            }
+            Op::Sync => mini_moka::sync::ConcurrentCacheExt::sync(&cache),
+            _ => {}
         }
     }
     if !trace.prologue.is_empty() {
@@ -658,6 +666,10 @@ fn finish_flags(rep: &mut RunReport, shared: &Arc<Shared>, hist: &[Rec], schedul
         for i in 0..32u16 {
             keys.insert(1000 + i);
         }
+        // prologue keys (small universes) may be lost without appearing in any thread's ops
+        for i in 0..16u16 {
+            keys.insert(i);
+        }
         let keys: Vec<u16> = keys.into_iter().collect();
         rep.keyed = crate::hooks::resolve_keyed(shared, HASH_MODE.with(|m| m.get()), &keys);
     }
@@ -1018,44 +1030,120 @@ fn judge_history(
             }
         }
 
-        // expiry safety in thr: certain violations only
+        // expiry safety in thr: certain violations only. Observations of a value: get hits,
+        // pairs yielded by an iteration (a stepped yield is judged against the earliest
+        // reading of its own next() call).
         if cfg.has_expiry() {
+            // (tid, idx, invoke, earliest reading, value, what)
+            let mut obs: Vec<(usize, usize, u64, u64, u32, &'static str)> = Vec::new();
             for r in hist {
-                let observed: Option<u32> = match (&r.op, &r.res) {
-                    (Op::Get { k: kk }, Res::Got(Some(v))) if kk == k => Some(*v),
-                    _ => None,
-                };
-                if let Some(v) = observed {
-                    // latest possible write reading of that value
-                    let w = hist.iter().find(|w| matches!(&w.op, Op::Insert { vid, .. } if *vid == v));
-                    let t_ins_max = w.map(|w| w.clock_hi).unwrap_or(0);
-                    if let Some(d) = cfg.ttl {
-                        if r.clock_lo >= t_ins_max.saturating_add(d) {
+                match (&r.op, &r.res) {
+                    (Op::Get { k: kk }, Res::Got(Some(v))) if kk == k => obs.push((r.tid, r.idx, r.invoke, r.clock_lo, *v, "get")),
+                    (Op::Iter, Res::Items(items)) | (Op::IterEnd, Res::Items(items)) => {
+                        for (kk, v) in items {
+                            if kk == k {
+                                obs.push((r.tid, r.idx, r.invoke, r.clock_lo, *v, "iteration"));
+                            }
+                        }
+                    }
+                    (Op::IterNext, Res::Yield(Some((kk, v)))) if kk == k => {
+                        obs.push((r.tid, r.idx, r.invoke, r.clock_lo, *v, "iteration"))
+                    }
+                    _ => {}
+                }
+            }
+            for (otid, oidx, oinvoke, olo, v, what) in obs {
+                // latest possible write reading of that value (prologue writes happen at 0)
+                let w = hist.iter().find(|w| matches!(&w.op, Op::Insert { vid, .. } if *vid == v));
+                let t_ins_max = w.map(|w| w.clock_hi).unwrap_or(0);
+                if let Some(d) = cfg.ttl {
+                    if olo >= t_ins_max.saturating_add(d) {
+                        rep.viol(
+                            "C05.thr-visible-after-ttl",
+                            format!("T{} {}({}) returned value {} at reading >= {} although it was written at reading <= {} with ttl {}", otid, what, k, v, olo, t_ins_max, d),
+                            oinvoke as usize,
+                            Some(*k),
+                        );
+                        if what == "iteration" {
                             rep.viol(
-                                "C05.thr-visible-after-ttl",
-                                format!("T{} get({}) returned value {} at reading >= {} although it was written at reading <= {} with ttl {}", r.tid, k, v, r.clock_lo, t_ins_max, d),
-                                r.invoke as usize,
+                                "C16.thr-yielded-expired",
+                                format!("T{} iteration yielded key {} value {} at reading >= {} although it was written at reading <= {} with ttl {}", otid, k, v, olo, t_ins_max, d),
+                                oinvoke as usize,
                                 Some(*k),
                             );
                         }
                     }
-                    if let Some(d) = cfg.tti {
-                        // latest possible access: the write, or any hit on this key invoked before this get returned
-                        let mut a = t_ins_max;
-                        for g in hist {
-                            if let (Op::Get { k: kk }, Res::Got(Some(_))) = (&g.op, &g.res) {
-                                if kk == k && g.invoke < r.invoke && !(g.tid == r.tid && g.idx == r.idx) {
-                                    a = a.max(g.clock_hi);
-                                }
+                }
+                if let Some(d) = cfg.tti {
+                    // latest possible access: the write, or any hit on this key invoked before this lookup
+                    let mut a = t_ins_max;
+                    for g in hist {
+                        if let (Op::Get { k: kk }, Res::Got(Some(_))) = (&g.op, &g.res) {
+                            if kk == k && g.invoke < oinvoke && !(g.tid == otid && g.idx == oidx) {
+                                a = a.max(g.clock_hi);
                             }
                         }
-                        if r.clock_lo >= a.saturating_add(d) {
+                    }
+                    if olo >= a.saturating_add(d) {
+                        rep.viol(
+                            "C06.thr-visible-after-tti",
+                            format!("T{} {}({}) returned value {} at reading >= {} although its last possible access was at reading <= {} with tti {}", otid, what, k, v, olo, a, d),
+                            oinvoke as usize,
+                            Some(*k),
+                        );
+                        if what == "iteration" {
                             rep.viol(
-                                "C06.thr-visible-after-tti",
-                                format!("T{} get({}) returned value {} at reading >= {} although its last possible access was at reading <= {} with tti {}", r.tid, k, v, r.clock_lo, a, d),
-                                r.invoke as usize,
+                                "C16.thr-yielded-expired",
+                                format!("T{} iteration yielded key {} value {} at reading >= {} although its last possible access was at reading <= {} with tti {}", otid, k, v, olo, a, d),
+                                oinvoke as usize,
                                 Some(*k),
                             );
+                        }
+                    }
+                }
+            }
+            // contains_key == true: some value of the key must still be possibly alive
+            for r in hist {
+                if let (Op::Contains { k: kk }, Res::Has(true)) = (&r.op, &r.res) {
+                    if kk != k {
+                        continue;
+                    }
+                    // latest possible write / access reading among everything that may have taken effect
+                    let mut t_w: Option<u64> = if prologue.iter().any(|p| p.0 == *k) { Some(0) } else { None };
+                    let mut t_a: u64 = 0;
+                    for w in hist {
+                        if w.invoke >= r.ret {
+                            continue;
+                        }
+                        match (&w.op, &w.res) {
+                            (Op::Insert { k: wk, .. }, _) if wk == k => {
+                                t_w = Some(t_w.unwrap_or(0).max(w.clock_hi));
+                            }
+                            (Op::Get { k: gk }, Res::Got(Some(_))) if gk == k => t_a = t_a.max(w.clock_hi),
+                            _ => {}
+                        }
+                    }
+                    if let Some(tw) = t_w {
+                        if let Some(d) = cfg.ttl {
+                            if r.clock_lo >= tw.saturating_add(d) {
+                                rep.viol(
+                                    "C05.thr-visible-after-ttl",
+                                    format!("T{} contains_key({}) was true at reading >= {} although the key was last written at reading <= {} with ttl {}", r.tid, k, r.clock_lo, tw, d),
+                                    r.invoke as usize,
+                                    Some(*k),
+                                );
+                            }
+                        }
+                        if let Some(d) = cfg.tti {
+                            let a = tw.max(t_a);
+                            if r.clock_lo >= a.saturating_add(d) {
+                                rep.viol(
+                                    "C06.thr-visible-after-tti",
+                                    format!("T{} contains_key({}) was true at reading >= {} although the key's last possible access was at reading <= {} with tti {}", r.tid, k, r.clock_lo, a, d),
+                                    r.invoke as usize,
+                                    Some(*k),
+                                );
+                            }
                         }
                     }
                 }
@@ -1241,6 +1329,8 @@ fn thr_stream(pop: &str) -> Option<u64> {
         "thr-expiry" => 25,
         "thr-sweep" => 26,
         "thr-callback" => 27,
+        "thr-warm" => 28,
+        "thr-iter-mixed" => 29,
         _ => return None,
     })
 }
@@ -1457,6 +1547,188 @@ pub fn generate(pop: &str, seed: u64, run: u64) -> Option<Trace> {
             for _ in 0..iters {
                 let mut prog = vec![OpRec::plain(Op::IterBegin)];
                 let steps = rng.range(0, nkeys as u64 + 1) as usize;
+                for _ in 0..steps {
+                    prog.push(OpRec::plain(Op::IterNext));
+                }
+                prog.push(OpRec::plain(Op::IterEnd));
+                if rng.chance(1, 3) {
+                    prog.push(OpRec::plain(Op::Iter));
+                }
+                threads.push(prog);
+            }
+        }
+        "thr-warm" => {
+            // A cache that is full and warm (recency order and popularity estimates built by
+            // the prologue) when the threads start: admissions meet victims, victims are
+            // updated / read / invalidated by other threads while maintenance is parked
+            // between its decision and each removal.
+            let cap = *rng.pick(&[2u64, 3, 3, 4, 4, 6]);
+            cfg.cap = Some(cap);
+            cfg.init_cap = None;
+            match rng.below(6) {
+                0 => {
+                    cfg.ttl = Some(*rng.pick(&[SEC, 3 * SEC]));
+                    cfg.tti = None;
+                }
+                1 => {
+                    cfg.tti = Some(*rng.pick(&[SEC, 3 * SEC]));
+                    cfg.ttl = None;
+                }
+                _ => {
+                    cfg.ttl = None;
+                    cfg.tti = None;
+                }
+            }
+            // residents: keys 0..r filling the capacity (unit weights, or weights 1..2)
+            let mut filled = 0u64;
+            let mut r = 0u16;
+            while filled < cap && r < 6 {
+                let w = if cfg.weigher { 1 + rng.below(2) as u32 } else { 1 };
+                let pw = if cfg.weigher { w as u64 } else { 1 };
+                if filled + pw > cap {
+                    break;
+                }
+                prologue.push(OpRec::plain(Op::Insert { k: r, vid: next_vid, w }));
+                next_vid += 1;
+                filled += pw;
+                r += 1;
+            }
+            prologue.push(OpRec::plain(Op::Sync));
+            let nfresh = rng.range(1, 2) as u16;
+            // popularity: residents 0..3 reads each, newcomers 0..6 (misses count as well)
+            for k in 0..r {
+                for _ in 0..rng.below(4) {
+                    prologue.push(OpRec::plain(Op::Get { k }));
+                }
+            }
+            for k in r..r + nfresh {
+                for _ in 0..rng.below(7) {
+                    prologue.push(OpRec::plain(Op::Get { k }));
+                }
+            }
+            prologue.push(OpRec::plain(Op::Sync));
+            let nthreads = rng.range(2, 3) as usize;
+            let with_clock = cfg.has_expiry();
+            let faulty = rng.chance(1, 3);
+            let allk = r + nfresh;
+            for t in 0..nthreads {
+                let len = rng.range(1, 5) as usize;
+                let mut prog = Vec::new();
+                let maint_thread = t == nthreads - 1 && nthreads > 2 && rng.chance(1, 4);
+                for _ in 0..len {
+                    let op = if maint_thread {
+                        Op::Sync
+                    } else {
+                        match rng.weighted(&[8, 3, 4, 2, 2, 1, 1, if with_clock { 2 } else { 0 }]) {
+                            0 => {
+                                let vid = next_vid;
+                                next_vid += 1;
+                                Op::Insert { k: r + rng.below(nfresh as u64) as u16, vid, w: *rng.pick(&[0u32, 1, 1, 1, 2]) }
+                            }
+                            1 => {
+                                let vid = next_vid;
+                                next_vid += 1;
+                                Op::Insert { k: rng.below(r.max(1) as u64) as u16, vid, w: *rng.pick(&[0u32, 1, 1, 2, 3]) }
+                            }
+                            2 => Op::Get { k: rng.below(allk as u64) as u16 },
+                            3 => Op::Invalidate { k: rng.below(allk as u64) as u16 },
+                            4 => Op::Sync,
+                            5 => {
+                                if rng.chance(1, 2) {
+                                    Op::Iter
+                                } else {
+                                    Op::Contains { k: rng.below(allk as u64) as u16 }
+                                }
+                            }
+                            6 => Op::InvalidateAll,
+                            _ => Op::Advance { ns: *rng.pick(&[1u64, MS, 501 * MS, SEC, SEC, 3 * SEC]) },
+                        }
+                    };
+                    let mut f = Faults::default();
+                    if faulty {
+                        if matches!(op, Op::Get { .. }) && rng.chance(1, 6) {
+                            f.read_drop = true;
+                        }
+                        if matches!(op, Op::Get { .. } | Op::Insert { .. } | Op::Invalidate { .. }) && rng.chance(1, 6) {
+                            f.hk_contended = rng.range(1, 3) as u8;
+                        }
+                        if matches!(op, Op::Insert { .. } | Op::Invalidate { .. }) && rng.chance(1, 8) {
+                            f.write_full = rng.range(1, 6) as u8;
+                        }
+                    }
+                    prog.push(OpRec { op, f });
+                }
+                if rng.chance(1, 6) {
+                    prog.push(OpRec::plain(Op::DropHandle));
+                }
+                threads.push(prog);
+            }
+        }
+        "thr-iter-mixed" => {
+            // stepped iterators beside threads that insert new keys, invalidate, expire and
+            // evict (not only update): C16's "never an expired or invalidated entry", C08, C09
+            cfg.cap = *rng.pick(&[None, None, Some(3), Some(4), Some(64)]);
+            cfg.hasher = *rng.pick(&[HashMode::Fixed, HashMode::Fixed, HashMode::Collide1, HashMode::Collide2]);
+            match rng.below(4) {
+                0 => {
+                    cfg.ttl = Some(*rng.pick(&[1u64, SEC]));
+                    cfg.tti = None;
+                }
+                1 => {
+                    cfg.tti = Some(*rng.pick(&[1u64, SEC]));
+                    cfg.ttl = None;
+                }
+                _ => {
+                    cfg.ttl = None;
+                    cfg.tti = None;
+                }
+            }
+            let nkeys = rng.range(1, 5) as u16;
+            for k in 0..nkeys {
+                prologue.push(OpRec::plain(Op::Insert { k, vid: next_vid, w: 1 }));
+                next_vid += 1;
+            }
+            let with_clock = cfg.has_expiry();
+            let faulty = rng.chance(1, 3);
+            let mutators = rng.range(1, 2) as usize;
+            let iters = rng.range(1, 2) as usize;
+            for _ in 0..mutators {
+                let len = rng.range(1, 5) as usize;
+                let mut prog = Vec::new();
+                for _ in 0..len {
+                    let op = match rng.weighted(&[5, 2, 4, 1, 2, 2, if with_clock { 3 } else { 0 }]) {
+                        0 => {
+                            let vid = next_vid;
+                            next_vid += 1;
+                            Op::Insert { k: rng.below(nkeys as u64) as u16, vid, w: *rng.pick(&[0u32, 1, 1, 2]) }
+                        }
+                        1 => {
+                            let vid = next_vid;
+                            next_vid += 1;
+                            Op::Insert { k: nkeys + rng.below(2) as u16, vid, w: 1 }
+                        }
+                        2 => Op::Invalidate { k: rng.below(nkeys as u64 + 1) as u16 },
+                        3 => Op::InvalidateAll,
+                        4 => Op::Sync,
+                        5 => Op::Get { k: rng.below(nkeys as u64 + 1) as u16 },
+                        _ => Op::Advance { ns: *rng.pick(&[1u64, 1, MS, 501 * MS, SEC - 1, SEC, SEC + 1]) },
+                    };
+                    let mut f = Faults::default();
+                    if faulty {
+                        if matches!(op, Op::Get { .. } | Op::Insert { .. } | Op::Invalidate { .. }) && rng.chance(1, 6) {
+                            f.hk_contended = rng.range(1, 3) as u8;
+                        }
+                        if matches!(op, Op::Insert { .. } | Op::Invalidate { .. }) && rng.chance(1, 8) {
+                            f.write_full = rng.range(1, 4) as u8;
+                        }
+                    }
+                    prog.push(OpRec { op, f });
+                }
+                threads.push(prog);
+            }
+            for _ in 0..iters {
+                let mut prog = vec![OpRec::plain(Op::IterBegin)];
+                let steps = rng.range(0, nkeys as u64 + 2) as usize;
                 for _ in 0..steps {
                     prog.push(OpRec::plain(Op::IterNext));
                 }
